@@ -209,19 +209,23 @@ P["C14"] = {
 # ---------------------------------------------------------------- C16
 c16q = [job("H_C16_forward", reach=["forwarded"], peers=p, ic=ic, next=nx, rec=rc, fill=fl) for p in (2, 3) for ic in (0, 1) for nx in (-1, 0, 1, 2) for rc in (0, 2) for fl in (0, 15)] + \
        [job("H_C16_forward", reach=["rejected"], peers=2, ic=2), job("H_C16_forward", peers=2, ic=0, fill=16)] + \
-       [job("H_C17_conc", conc=True, reach=["checked"], scenario=2, n=3), job("H_C17_conc", conc=True, reach=["checked"], scenario=1, n=1), job("H_C17_conc", conc=True, reach=["checked"], scenario=5)]
+       [job("H_C17_conc", conc=True, reach=["checked"], scenario=2, n=3), job("H_C17_conc", conc=True, reach=["checked"], scenario=1, n=1), job("H_C17_conc", conc=True, reach=["checked"], scenario=5)] + \
+       [job("H_C16_e2e", conc=True, reach=["forwarded", "dialled"], peers=p, ic=ic, next=nx, rec=rc, n=n) for (p, ic, nx, rc, n) in ((2, 0, 0, 0, 2), (3, 1, 2, 2, 2), (2, 0, -1, 0, 2), (3, 0, 1, 2, 1), (2, 1, 0, 0, 1))] + \
+       [job("H_C16_e2e", conc=True, reach=["rejected"], peers=2, ic=2, n=1)]
+c16t = c16q + [job("H_C16_e2e", conc=True, reach=["forwarded", "dialled"], peers=3, ic=ic, next=nx, rec=2, n=3) for ic in (0, 1) for nx in (0, 1, 2)]
 P["C16"] = {
  "title": "a proxy delivers each accepted envelope once, in order, to the right peer",
- "bounds": "one forwarding step from a proxy state with 2..3 attached peers and symbolic queue fill 0/15/16 of 16, for an accepted envelope with symbolic destination / interceptor rewrite / return route of 0..2 hops (nil and empty) / route record of 0..2 entries, symbolic id and payload; per-pair ordering with a stuck third peer (3 envelopes, all interleavings)",
+ "bounds": "one forwarding step from a proxy state with 2..3 attached peers and symbolic queue fill 0/15/16 of 16, for an accepted envelope with symbolic destination / interceptor rewrite / return route of 0..2 hops (nil and empty) / route record of 0..2 entries, symbolic id and payload; per-pair ordering with a stuck third peer (3 envelopes, all interleavings); through the exported API only (H_C16_e2e): a running proxy with 2..3 attached peers, 1..2 (thorough 3) envelopes from one peer to a symbolic destination incl. dial-on-demand that succeeds, every schedule",
  "assumptions": GEN_ASSUME + ["end-to-end RPCs through a proxy (client - proxy - Demux - Serve) are not part of the registered bound"],
- "quick": c16q, "thorough": c16q,
+ "quick": c16q, "thorough": c16t,
 }
 
 # ---------------------------------------------------------------- C17
-c17q = [job("H_C17_reject", reach=["rejected"], kind=k) for k in (0, 1, 2)] + [job("H_C17_reject", kind=k, unnamed=1) for k in (0, 1, 2)] + [job("H_C17_conc", conc=True, reach=["checked"], scenario=s, n=n) for s, n in ((0, 1), (1, 1), (2, 2), (3, 1), (4, 2), (5, 1))]
+c17q = [job("H_C17_reject", reach=["rejected"], kind=k) for k in (0, 1, 2)] + [job("H_C17_reject", kind=k, unnamed=1) for k in (0, 1, 2)] + [job("H_C17_conc", conc=True, reach=["checked"], scenario=s, n=n) for s, n in ((0, 1), (1, 1), (2, 2), (3, 1), (4, 2), (5, 1))] + \
+       [job("H_C17_reject_e2e", conc=True, reach=["rejected"], kind=k) for k in (0, 1, 2)] + [job("H_C17_reject_e2e", conc=True, kind=k, unnamed=1) for k in (0, 1, 2)]
 P["C17"] = {
  "title": "a proxy rejects spoofed sources, isolates bad peers and shuts down cleanly",
- "bounds": "forwardRpc for a missing header / every 2-byte claimed source / empty source; scenarios under all interleavings: context cancelled at any point during traffic (goroutine census), re-attachment under the same name racing with the old connection's failure, stuck writer, failing reader, unreachable destination (dial error); <= 2 envelopes per pair (thorough 3)",
+ "bounds": "forwardRpc for a missing header / every 2-byte claimed source / empty source, as one step and through a running proxy (exported API only) followed by an honest envelope; scenarios under all interleavings: context cancelled at any point during traffic (goroutine census), re-attachment under the same name racing with the old connection's failure, stuck writer, failing reader, unreachable destination (dial error); <= 2 envelopes per pair (thorough 3)",
  "assumptions": GEN_ASSUME,
  "quick": c17q,
  "thorough": c17q + [job("H_C17_conc", conc=True, reach=["checked"], scenario=0, n=2), job("H_C17_conc", conc=True, reach=["checked"], scenario=2, n=3)],
